@@ -17,6 +17,48 @@ GB = "gateway_base"
 PRIM_READS = ("_read", "recv", "read", "recv_into")
 
 
+def _check_exact_read_into(repo: Repo, ob: Obligation, fi: FuncInfo, lp: ast.While, n: str, got: str, reads: list) -> None:
+    """idiom I3: preallocated buffer + progress counter:  got = 0; while got < n: k = recv_into(view[got:], n - got); got += k"""
+    body_nodes = [x for s_ in lp.body for x in ast.walk(s_)]
+    init = [x for x in fi.node.body if isinstance(x, ast.Assign) and unparse(x.targets[0]) == got]
+    if not init or repo.fold_in(init[0].value, fi) != 0:
+        ob.violation(fi, lp, f"the progress counter `{got}` does not start at 0")
+    for rd in reads:
+        if not any(x is rd for x in body_nodes):
+            ob.violation(fi, rd, "a low-level read outside the accumulate loop")
+            continue
+        if callee_attr(rd) not in ("recv_into", "readinto"):
+            raise AnalysisError(f"{fi.short}: counter idiom with `{callee_attr(rd)}` not recognised")
+        dest = rd.args[0] if rd.args else None
+        ok_dest = isinstance(dest, ast.Subscript) and isinstance(dest.slice, ast.Slice) and dest.slice.lower is not None and unparse(dest.slice.lower) == got
+        if not ok_dest:
+            ob.violation(fi, rd, f"every chunk is received into `{norm(dest) if dest is not None else '?'}` instead of the part of the buffer after the {got} bytes already read: "
+                                 "a frame that needs more than one recv() is overwritten from the start (corrupt payload, zero tail)")
+        size = rd.args[1] if len(rd.args) > 1 else None
+        if size is not None and unparse(size) != f"{n} - {got}" and not (isinstance(size, ast.Call) and unparse(size.func) == "min" and any(unparse(a) == f"{n} - {got}" for a in size.args)):
+            ob.violation(fi, rd, f"the low-level read requests `{norm(size)}`, which can exceed the bytes still missing ({n} - {got})")
+        if size is None and not (ok_dest and isinstance(dest, ast.Subscript) and dest.slice.upper is None):
+            pass
+        par = repo.parent(rd)
+        var = unparse(par.targets[0]) if isinstance(par, ast.Assign) and par.value is rd else None
+        if var is None:
+            ob.violation(fi, rd, "the byte count returned by the low-level read is not examined")
+            continue
+        eof = [s_ for s_ in lp.body if isinstance(s_, ast.If) and unparse(s_.test) in (f"not {var}", f"{var} == 0") and isinstance(s_.body[-1], ast.Raise)
+               and unparse(s_.body[-1].exc).split("(")[0] == "EOFError"]
+        if not eof:
+            ob.violation(fi, rd, "a zero-byte read (peer closed) does not raise EOFError")
+        inc = [x for x in body_nodes if isinstance(x, ast.AugAssign) and unparse(x.target) == got and isinstance(x.op, ast.Add) and unparse(x.value) == var]
+        if len(inc) != 1:
+            ob.violation(fi, rd, f"the progress counter is not advanced by the number of bytes just read (`{got} += {var}`)")
+    for x in body_nodes:
+        if isinstance(x, (ast.Break, ast.Return)):
+            ob.violation(fi, x, "the accumulate loop can be left before n bytes arrived")
+    rets = [x for x in repo.own_nodes(fi) if isinstance(x, ast.Return)]
+    if len(rets) != 1:
+        ob.violation(fi, fi.node, "the read does not return exactly once, after the loop")
+
+
 def check_exact_read(repo: Repo, ob: Obligation, fi: FuncInfo) -> None:
     """IO.read(n) must return exactly n bytes or raise EOFError.
 
@@ -57,6 +99,9 @@ def check_exact_read(repo: Repo, ob: Obligation, fi: FuncInfo) -> None:
             return
     elif isinstance(t, ast.Name):
         missing = t.id
+    if buf is None and missing is None and isinstance(t, ast.Compare) and len(t.ops) == 1 and isinstance(t.ops[0], ast.Lt) \
+            and isinstance(t.left, ast.Name) and unparse(t.comparators[0]) == n:
+        return _check_exact_read_into(repo, ob, fi, lp, n, t.left.id, reads)
     if buf is None and missing is None:
         raise AnalysisError(f"{fi.short}: accumulate loop condition `{norm(t)}` not recognised")
     body_nodes = [x for s_ in lp.body for x in ast.walk(s_)]
